@@ -241,6 +241,7 @@ func addSim(o *kit.Outcome, res *scanRes, workload uint64, nontrivial bool) {
 	if len(o.Violations) == 0 && len(res.sim.Trace) > 0 {
 		// the oracle runs right after this call: the trace kept is that of the first violating execution
 		o.Trace = res.sim.Trace
+		o.Goroutines = res.sim.Goroutines
 	}
 	o.Evals++
 	o.SimNanos += res.sim.SimNanos
